@@ -532,8 +532,17 @@ def bespoke_verdict(desc):
 
         ny = mesh.shape[1]
         comp = WingboxFuelVolDelta(surface={"name": "w", "mesh": mesh, "symmetry": sym, "fuel_density": 803.0, "Wf_reserve": 150.0})
-        n = _judge_alone(out, comp, {"fuelburn": rng.uniform(1e2, 1e4, size=1), "fuel_vols": rng.uniform(0.01, 0.5, size=ny - 1)},
+        out2 = Outcome()
+        n = _judge_alone(out2, comp, {"fuelburn": rng.uniform(1e2, 1e4, size=1), "fuel_vols": rng.uniform(0.01, 0.5, size=ny - 1)},
                          rng, eps, "WingboxFuelVolDelta")
+        inplace = [f for f in out2.fails if f["key"] == "WingboxFuelVolDelta:input_modified_in_place/fuelburn"]
+        if sym and inplace:
+            # recorded finding: the symmetric branch halves the fuelburn INPUT in place; the wrong cs partials follow from it
+            out.fail("KF-C01-fuelvoldelta-inplace:symmetric_branch_halves_input_in_place", inplace[0]["msg"])
+        else:
+            out.fails.extend(out2.fails)
+        out.residuals.update(out2.residuals)
+        out.label("fuelvoldelta-symmetric" if sym else "fuelvoldelta-fullspan")
     elif w == "atmos":
         from openaerostruct.common.atmos_comp import AtmosComp
 
